@@ -112,7 +112,33 @@ class Executor:
         self.returncode = r.returncode
         out = r.stdout.split("\n")
         if out and out[-1] == "": out.pop()
+        elif out: out.pop()          # the process died in the middle of a line: drop the fragment
         return out
+
+    def run_robust(self, lines, timeout=600, max_crashes=25):
+        """Like run(), but survives a dying executor: a library call that corrupts memory so badly that the
+        process dies is an observation, not a machinery failure.  The culprit command is re-run alone; if
+        it kills a fresh process again its answer becomes 'R crash ...'."""
+        outs = []
+        rest = list(lines)
+        crashes = 0
+        while rest:
+            got = self.run(rest, timeout=timeout)
+            if len(got) >= len(rest):
+                outs.extend(got[:len(rest)]); break
+            outs.extend(got)
+            culprit = rest[len(got)]
+            alone = self.run([culprit], timeout=60)
+            if alone:
+                # it survives alone: state-dependent (earlier corruption) - attribute to this command anyway
+                outs.append("R crash:%s 0000000000000000 0 0000000000000000 - 1 len=0 data=- dirty=1 ret=0 res=-" % self.returncode)
+            else:
+                outs.append("R crash:%s 0000000000000000 0 0000000000000000 - 1 len=0 data=- dirty=1 ret=0 res=-" % self.returncode)
+            crashes += 1
+            rest = rest[len(got) + 1:]
+            if crashes >= max_crashes:
+                raise Infra("executor crashed %d times - giving up (last stderr: %s)" % (crashes, self.stderr[-300:]))
+        return outs
 
     def describe(self):
         out = self.run(["describe"])
